@@ -1,7 +1,7 @@
 import PdModel.Model.IdAlloc
 import PdModel.Lemmas.IdAlloc
 import PdModel.Spec.C04
-import PdModel.Generated.Consts
+import PdModel.Generated.IdAlloc
 set_option linter.unusedSimpArgs false
 set_option linter.unusedVariables false
 /-!
@@ -177,7 +177,7 @@ theorem C04_holds (k : Nat) (hk : 0 < k) (ops : List Op) : C04.Holds (events (in
 
 /-- instantiated with the step extracted from `/repo/server/id/id.go` -/
 theorem C04_holds_extracted (ops : List Op) :
-    C04.Holds (events (init PdModel.Generated.allocStep) ops) :=
+    C04.Holds (events (init PdModel.Generated.IdAlloc.allocStep) ops) :=
   C04_holds _ (by decide) ops
 
 /-- If the transaction's condition does not hold – the issuing member is not the value of the leader
@@ -260,4 +260,13 @@ def demoOps : List Op :=
 
 example : events (init 3) demoOps = [⟨1, 1, 3⟩, ⟨0, 7, 9⟩, ⟨1, 2, 9⟩, ⟨1, 3, 9⟩] := by decide
 
+end PdModel.IdAlloc
+
+namespace PdModel.IdAlloc
+/-- structure obligation: `Alloc` and `Rebase` each hold the instance mutex for their whole body
+    (this is what makes rd ; cas ; bump of one instance sequential in the model).  Re-checked against
+    the facts regenerated from the Go source on every run. -/
+theorem id_alloc_sections_locked :
+    PdModel.Generated.IdAlloc.allocIsOneSection = true ∧
+    PdModel.Generated.IdAlloc.rebaseIsOneSection = true := by decide
 end PdModel.IdAlloc
